@@ -70,6 +70,9 @@ def norm_sig(msg):
 
 
 def san_kind(san):
+    # a jump through a NULL function pointer inside the library: a handler slot that holds NULL was called
+    if "SEGV" in san and re.search(r"\(pc 0x0+ ", san):
+        return "null-call"
     for k in ("heap-use-after-free", "heap-buffer-overflow", "stack-buffer-overflow", "global-buffer-overflow", "SEGV", "double-free",
               "attempting free", "runtime error", "LeakSanitizer", "TIMEOUT"):
         if k in san:
